@@ -42,11 +42,15 @@ impl vstd::std_specs::cmp::PartialEqSpecImpl for U256 {
 pub assume_specification[ <U256 as core::cmp::PartialEq>::eq ](a: &U256, b: &U256) -> (r: bool);
 
 //@include word_use/items.rs
-//@dropped merge, arms WITHOUT a packed operand (Word x Word, Bytes x Word, DynamicArray x Bytes, DynamicArray x Word, DynamicArray x DynamicArray, FixedArray x FixedArray, Mapping x Mapping): R-OPAQUE here (bodies replaced by a stand-in with NO postcondition) — they are under contract in unit merge; the rewrites are `optional`, an edited arm is passed to the verifier verbatim (nothing is claimed about it in this unit)
-//@dropped merge's precondition for two packed operands — every span end `offset + size` is representable (spans_fit) — is NOT discharged at the call site in `unify` (unit unify takes merge as an assumed callee); the producers of packed encodings (lift/packed_encoding.rs, rule/masked_word.rs, rule/mapping_access.rs) are outside this unit
-//@dropped TypeExpression::conflict_with: closure + Vec::extend, assumed to return a `Conflict` (A-CALLEE); payloads are not compared
-//@dropped the ORDER in which equalities / judgements are emitted by `process_spans` (sorted_by_key on (offset, size)): only WHAT is emitted per operand span is under contract (the sort is assumed to return a permutation; its key closure's arithmetic-free body stays in front of the verifier)
-//@dropped itertools / std iterator adapters are NOT verified: `iter, into_iter, chain, unique, sorted, sorted_by_key, collect_vec, skip` are stand-ins over Seq with assumed contracts (A-STD, listed in assumptions.json); `flat_map`, `map`, `skip_while`, `take_while`, `copied` and the closure `process_spans` are desugared into loops whose bodies are the closures' bodies carried over verbatim (R-FOREACH)
+//@dropped merge, arms WITHOUT a packed operand (Word x Word, Bytes x Word, DynamicArray x Bytes, DynamicArray x Word, DynamicArray x DynamicArray, FixedArray x FixedArray, Mapping x Mapping): R-OPAQUE here (bodies replaced by a stand-in with NO postcondition) — they are under contract in unit merge; the rewrites are `optional`: an edited arm is passed to the verifier verbatim (nothing is claimed about it in this unit)
+//@dropped merge's precondition for two packed operands — every span end `offset + size` is a representable usize (spans_fit) — is NOT discharged at the call site in `unify` (unit unify takes merge as an assumed callee). It is preserved by merge itself (C01.mp.packed_packed.result_span_ends_representable: result spans, emitted sub-spans and the narrow-word span all fit), but the producers of packed encodings (rule/packed_encoding.rs, rule/masked_word.rs, rule/mapping_access.rs: `Span::new(v, projection * 256, 256)`) are outside this unit
+//@dropped TypeExpression::conflict_with: closure + Vec::extend, assumed to return a `Conflict` (A-CALLEE); conflict payloads are not compared
+//@dropped Packed x Packed: the ORDER in which equalities / judgements are emitted by `process_spans` (sorted_by_key on (offset, size)) is not under contract: the sort is only assumed to return a rearrangement; per emitted item: it is about an operand span, exact tiling, variables; plus one item per operand span by COUNT (that the items are about pairwise different operand spans is not stated)
+//@dropped Packed x Packed is under contract for operands that are not the same encoding (`abs(left) != abs(right)`); equal operands return that operand (C15.mp.merge.idempotent) whatever its geometry — an operand with overlapping or unsorted spans is returned as it is
+//@dropped Packed x Word: the contract is the arm's case table (C15 names no packed case); the span a sized special-usage word is matched with is the FIRST in vector order (`.exact` clause) — equal to "the span [0, w)" only for encodings whose spans start at ascending offsets and are non-empty and disjoint (lemma_first_span_rule); word widths above 256 are not excluded (the narrow-word span [0, w) then leaves the word)
+//@dropped itertools / std iterator adapters are NOT verified: `iter, into_iter, chain, unique, sorted, sorted_by_key, collect_vec, into_iter().skip` are stand-ins over Seq with assumed contracts (A-STD, listed in assumptions.json); `flat_map`, `map`, `copied`, `skip_while`, `take_while` and the closure `process_spans` are desugared into loops whose bodies are the closures' bodies carried over verbatim (R-FOREACH); laziness of the adapters (closures run at `collect_vec`, not where they are written) is not modelled — it cannot change results here: no closure has a side effect
+//@dropped C16 grouping (associativity) is NOT claimed for packed operands (C16's finite domain has no packed encodings); order (symmetry) is: law_packed_packed_symmetric / law_packed_other_symmetric
+//@dropped unify / abi_type_for / the lifting passes: other units
 
 // =================================================================================================
 // Types (extracted verbatim; derive lists replaced as A-DERIVE says)
@@ -138,7 +142,9 @@ pub fn vx_iter<'a, T>(v: &'a Vec<T>) -> (r: VxIter<&'a T>)
 pub fn vx_from_vec<T>(v: Vec<T>) -> (r: VxIter<T>) ensures r.seq() == v@ { unimplemented!() }
 // A-STD: `Vec::into_iter().skip(n)`: the elements from position n on, in order
 #[verifier::external_body]
-pub fn vx_skip<T>(v: Vec<T>, n: usize) -> (r: Vec<T>) ensures r@ == v@.skip(n as int) || (n > v@.len() && r@.len() == 0) { unimplemented!() }
+pub fn vx_skip<T>(v: Vec<T>, n: usize) -> (r: Vec<T>)
+    ensures n <= v@.len() ==> r@ == v@.skip(n as int), n > v@.len() ==> r@.len() == 0,
+{ unimplemented!() }
 
 /// consequences of `is_perm_of` used below
 pub proof fn lemma_perm_props<T>(r: Seq<T>, s: Seq<T>)
